@@ -577,7 +577,7 @@ var (
 )
 
 func dsn(path string) string {
-	return fmt.Sprintf("file:%s?_pragma=journal_mode(WAL)&_pragma=busy_timeout(5000)&_pragma=synchronous(NORMAL)", path)
+	return fmt.Sprintf("file:%s?_pragma=journal_mode(WAL)&_pragma=busy_timeout(200)&_pragma=synchronous(NORMAL)", path)
 }
 
 // OpenSQLite opens the sqlite datastore on `path` through the wrapping driver.
